@@ -265,8 +265,10 @@ func CompactJSON(input, output []byte) []byte {
 			// Skip over whitespace.
 			continue
 		}
-		if c == '-' && i < len(input) && input[i] == '0' && !(i+1 < len(input) && (input[i+1] == '.' || input[i+1] == 'e' || input[i+1] == 'E')) {
-			// Negative 0 is changed to '0', skip the '-'.
+		if c == '-' && i < len(input) && input[i] == '0' && !(i+1 < len(input) && (input[i+1] == '.' || input[i+1] == 'e' || input[i+1] == 'E')) &&
+			!(i >= 2 && (input[i-2] == 'e' || input[i-2] == 'E')) {
+			// Negative 0 is changed to '0', skip the '-'. The sign of an
+			// exponent ("1e-05") is not the sign of a number and is kept.
 			continue
 		}
 		// Add the non-whitespace character to the output.
